@@ -8,7 +8,7 @@
     - [stream_error_returned]: with a bufio.Writer's sticky error, an output stream that accepts
       only n bytes makes the call return an error exactly when the document is longer than n. *)
 From Coq Require Import ZArith List Bool Lia Strings.Byte.
-From YV Require Import Val.Model Tree.Schema Tree.Export Tree.JStr Tree.JsonSpec Tree.JsonSpecProofs Tree.JsonExp Tree.JsonW.
+From YV Require Import Val.Model Tree.Schema Tree.Export Tree.JStr Tree.JsonSpec Tree.JsonSpecProofs Tree.JsonNumProofs Tree.JsonExp Tree.JsonW.
 Import ListNotations.
 Local Open Scope nat_scope.
 
@@ -411,3 +411,129 @@ Proof.
       rewrite Hb, andb_false_r. apply IH. exact Hb. }
   apply H. reflexivity.
 Qed.
+
+(** ** the written values decode to the stored values *)
+Section Values.
+  Variable fmt_float : Z -> Z -> list byte.
+
+  (** induction principle for expectations *)
+  Section JexpInd.
+    Variable P : jexp -> Prop.
+    Hypothesis Hs : forall s, P (EStr s).
+    Hypothesis Hi : forall z, P (EInt z).
+    Hypothesis Hd : forall m e, P (EDec m e).
+    Hypothesis Hb : forall b, P (EBool b).
+    Hypothesis He : P EEmpty.
+    Hypothesis Ha : forall l, Forall P l -> P (EArr l).
+    Hypothesis Ho : forall ms, Forall (fun kv => P (snd kv)) ms -> P (EObj ms).
+    Fixpoint jexp_ind2 (e : jexp) : P e :=
+      match e with
+      | EStr s => Hs s | EInt z => Hi z | EDec m x => Hd m x | EBool b => Hb b | EEmpty => He
+      | EArr l => Ha l ((fix go (l : list jexp) : Forall P l :=
+                           match l with [] => Forall_nil P | x :: tl => Forall_cons x (jexp_ind2 x) (go tl) end) l)
+      | EObj ms => Ho ms ((fix go (l : list (list byte * jexp)) : Forall (fun kv => P (snd kv)) l :=
+                             match l with [] => Forall_nil _ | x :: tl => Forall_cons x (jexp_ind2 (snd x)) (go tl) end) ms)
+      end.
+  End JexpInd.
+
+  (** what the theorem needs of the data: the strconv.FormatFloat oracle answered with a decimal
+      that rounds to the stored binary64 (checked per case by the correspondence run), and
+      sibling member names are pairwise distinct (YANG: sibling identifiers are unique) *)
+  Fixpoint exp_ok (e : jexp) : bool :=
+    match e with
+    | EDec m x => num_is_dec (fmt_float m x) m x
+    | EArr l => forallb exp_ok l
+    | EObj ms => keys_nodup (map fst ms) && forallb (fun kv => exp_ok (snd kv)) ms
+    | _ => true
+    end.
+
+  Lemma lex_cmp_refl a : lex_cmp a a = 0%Z.
+  Proof.
+    induction a as [|x a IH]; [reflexivity|]. cbn [lex_cmp]. rewrite Z.ltb_irrefl. exact IH.
+  Qed.
+  Lemma bytes_eqb_refl a : bytes_eqb a a = true.
+  Proof. unfold bytes_eqb. rewrite lex_cmp_refl. reflexivity. Qed.
+
+  Lemma num_is_int_z_dec z : num_is_int (z_dec z) z = true.
+  Proof.
+    unfold num_is_int. rewrite JsonNumProofs.num_parse_z_dec. cbn. rewrite Z.mul_1_r. apply Z.eqb_refl.
+  Qed.
+
+  Lemma find_member_conc (f : jexp -> jvalue) : forall ms k e,
+    keys_nodup (map fst ms) = true -> In (k, e) ms ->
+    find_member k (map (fun kv => (fst kv, f (snd kv))) ms) = Some (f e).
+  Proof.
+    induction ms as [|[k0 e0] tl IH]; intros k e Hnd Hin; [contradiction|].
+    cbn [map fst keys_nodup] in Hnd. apply andb_true_iff in Hnd as [Hh Ht].
+    unfold find_member. cbn [map find fst snd]. destruct Hin as [Heq|Hin].
+    - injection Heq as -> ->. rewrite bytes_eqb_refl. reflexivity.
+    - destruct (bytes_eqb k0 k) eqn:Ek.
+      + exfalso. apply negb_true_iff in Hh. assert (existsb (bytes_eqb k0) (map fst tl) = true); [|congruence].
+        apply existsb_exists. exists k. split; [|exact Ek]. apply in_map_iff. exists (k, e). split; [reflexivity|assumption].
+      + apply (IH k e Ht Hin).
+  Qed.
+
+  Lemma number_ok_of_dec l m x : num_is_dec l m x = true -> number_lexeme l = true.
+  Proof. unfold num_is_dec, number_lexeme. destruct (num_parse l); [reflexivity|discriminate]. Qed.
+
+  (** THEOREM: every value the writer emits decodes to the stored value *)
+  Theorem matches_conc : forall e, exp_ok e = true -> matches e (conc fmt_float e) = true.
+  Proof.
+    apply (jexp_ind2 (fun e => exp_ok e = true -> matches e (conc fmt_float e) = true)).
+    - intros s _. apply bytes_eqb_refl.
+    - intros z _. apply num_is_int_z_dec.
+    - intros m x H. exact H.
+    - intros b _. destruct b; reflexivity.
+    - intros _. reflexivity.
+    - intros l HF H. cbn [exp_ok] in H. cbn [conc matches].
+      revert HF H. induction l as [|x tl IH]; intros HF H; [reflexivity|].
+      apply Forall_cons_iff in HF as [Hp HF']. cbn [forallb] in H.
+      apply andb_true_iff in H as [Hx Ht]. cbn [map all2]. rewrite (Hp Hx). cbn [andb]. apply IH; assumption.
+    - intros ms HF H. cbn [exp_ok] in H. apply andb_true_iff in H as [Hnd Hok]. cbn [conc matches].
+      rewrite map_length, Nat.eqb_refl, Hnd. cbn [andb].
+      assert (Hall : forall sub, incl sub ms ->
+                all_members matches (map (fun kv => (fst kv, conc fmt_float (snd kv))) ms) sub = true).
+      { induction sub as [|[k e] sub IH]; intros Hincl; [reflexivity|].
+        cbn [all_members]. rewrite (find_member_conc (conc fmt_float) ms k e Hnd (Hincl _ (or_introl eq_refl))).
+        rewrite Forall_forall in HF. rewrite forallb_forall in Hok.
+        pose proof (HF (k, e) (Hincl _ (or_introl eq_refl)) (Hok (k, e) (Hincl _ (or_introl eq_refl)))) as Hm.
+        cbn [snd] in Hm. rewrite Hm. cbn [andb]. apply IH. intros y Hy. apply Hincl. right. exact Hy. }
+      apply Hall. apply incl_refl.
+  Qed.
+
+  (** ... and every number in it is a well-formed JSON number *)
+  Lemma nums_ok_conc : forall e, exp_ok e = true -> nums_ok (conc fmt_float e) = true.
+  Proof.
+    apply (jexp_ind2 (fun e => exp_ok e = true -> nums_ok (conc fmt_float e) = true)); try (intros; reflexivity).
+    - intros z _. apply JsonNumProofs.number_lexeme_z_dec.
+    - intros m x H. cbn in *. eapply number_ok_of_dec; eassumption.
+    - intros l HF H. cbn [exp_ok] in H. cbn [conc nums_ok].
+      revert HF H. induction l as [|x tl IH]; intros HF H; [reflexivity|].
+      apply Forall_cons_iff in HF as [Hp HF']. cbn [forallb] in H.
+      apply andb_true_iff in H as [Hx Ht]. cbn [map forallb]. rewrite (Hp Hx). apply IH; assumption.
+    - intros ms HF H. cbn [exp_ok] in H. apply andb_true_iff in H as [_ Hok]. cbn [conc nums_ok].
+      revert HF Hok. induction ms as [|x tl IH]; intros HF Hok; [reflexivity|].
+      apply Forall_cons_iff in HF as [Hp HF']. cbn [forallb] in Hok.
+      apply andb_true_iff in Hok as [Hx Ht]. cbn [map forallb snd]. rewrite (Hp Hx). apply IH; assumption.
+  Qed.
+
+  (** THEOREM (writer_wellformed): for every configuration and start selection for which a JSON
+      value stands for the data, the writer succeeds and its token stream, whitespace aside, is
+      derivable in the RFC 8259 grammar, parses as exactly one value, and that value meets the
+      expectation (names, structure, every leaf value) *)
+  Theorem writer_wellformed cfg idmod st e :
+    estart cfg idmod st = Some e -> exp_ok e = true ->
+    exists ts v, wstart cfg fmt_float idmod st = Some ts /\
+                 wf_value (normalize ts) /\
+                 parse_tokens (normalize ts) = Some v /\
+                 matches e v = true.
+  Proof.
+    intros He Hok. destruct (writer_canonical fmt_float idmod cfg st e He) as (ts & Hw & Hn).
+    exists ts, (conc fmt_float e). rewrite Hn. pose proof (nums_ok_conc e Hok) as Hnum.
+    repeat split.
+    - exact Hw.
+    - apply wf_toks_of. exact Hnum.
+    - apply parse_tokens_toks_of. exact Hnum.
+    - apply matches_conc. exact Hok.
+  Qed.
+End Values.
